@@ -370,10 +370,18 @@ package rsm
 //@ noframe
 //@ nobounds
 //@ requires s.sm != nil && s.sm.gapplymu == ptr(s.mu) && held(s.mu) != 0
-//@ func (s *StateMachine) checkSnapshotStatus [C11]
-//@ trusted compares the request with the applied index / aborted flag
-//@ func (s *StateMachine) savingDummySnapshot [C11]
-//@ trusted pure decision
+// verified (were trusted). C08: a snapshot that must carry the state machine's data is never saved as a dummy: only the
+// regular snapshot of an ON-DISK state machine is a dummy, never a streamed or exported one, never one of an in-memory SM;
+// a snapshot request is refused when aborted, and -- for an in-memory state machine -- when nothing has been applied since
+// the last snapshot (exported snapshots excepted); otherwise it goes ahead
+//@ func (s *StateMachine) checkSnapshotStatus [C11 C08]
+//@ nobounds
+//@ modifies held(s.lastApplied)
+//@ ensures s.aborted ==> result != nil
+//@ ensures !s.aborted && !s.onDiskSM && r.Type != Exported && s.lastApplied.index > 0 && s.lastApplied.index == s.snapshotIndex ==> result != nil
+//@ ensures !s.aborted && (s.onDiskSM || r.Type == Exported || s.lastApplied.index == 0 || s.lastApplied.index != s.snapshotIndex) ==> result == nil
+//@ func (s *StateMachine) savingDummySnapshot [C11 C08]
+//@ ensures result == (s.onDiskSM && r.Type != Streaming && r.Type != Exported)
 
 //@ func (s *StateMachine) stream [C11 C02 C08]
 //@ noframe
